@@ -7,4 +7,22 @@ META = {
   text="Exhaustive over all 299 593 JSON tokens of length 0..6 on a hostile alphabet for no-panic/accept/reject, and generated search (tens of thousands to millions of cases) for value exactness of quantities in every spelling, byte strings up to 8 KiB decoded into reused destinations, and big-endian round trips for every pad width; absence beyond the explored inputs is not established.",
   note="Reference codecs are Go's strconv, encoding/hex and math/big. 'Valid quantity' = 0x + 1..16 hex digits (longer spellings that still fit in 64 bits must be exact or rejected).",
  ),
+ "C09": dict(
+  design_ref="DESIGN.md §5 C09",
+  technique="rapid generated ABI type trees + independent encoder -> decoder, row-rule oracle; go native fuzz via rapid.MakeFuzz (thorough)",
+  text="Generated search over declarations x values with an independent ABI encoder and row rule as oracle: tens of thousands (quick) to millions (thorough) of declaration/value cases, each pushing 1..5 logs through one decoder instance. Shapes are covered by construction (labels report the distribution); sizes are bounded; no exhaustiveness claim.",
+  note="Trusted: harness/refmodel/abi.go (encoder, canonical type strings, row rule). Reaches the decoder through dig.NewResult(Event.ABIType()).Scan/Bytes, the same objects Integration.Insert uses.",
+ ),
+ "C10": dict(
+  design_ref="DESIGN.md §5 C10",
+  technique="rapid structured mutation of valid encodings at known offset/length words + per-declaration exhaustive truncation; sub-slice/row-bound/allocation oracle; go native fuzz (thorough)",
+  text="For generated declarations every prefix and every boundary word at every offset/length position of a valid encoding is tried (AllTruncations), plus a large random mutation search; the oracle checks panic-freedom, sub-range results, row and allocation bounds, and that the decoder instance is not corrupted.",
+  note="Input slices have cap==len so an over-read within spare capacity cannot hide. Promptness is judged by row/allocation bounds, not by time.",
+ ),
+ "C13": dict(
+  design_ref="DESIGN.md §5 C13",
+  technique="rapid differential vs canonical-signature builder + stand-alone Keccak-256; decoy-log gate oracle through Integration.Insert",
+  text="Generated search: the signature string and hash of every generated declaration are compared with an independent construction, Keccak is cross-checked against a from-scratch implementation and mainnet vectors, and blocks of matching/decoy logs must yield rows exactly for the logs passing the hash+topic-count gate.",
+  note="Trusted: refmodel.Keccak256 (validated against five mainnet topics and the empty-string digest), refmodel canonical signature.",
+ ),
 }
